@@ -36,6 +36,7 @@ RULES = {
     "reselect_hidden": (("ColumnNotFoundError",), ("select",)),
     # duplicate names
     "rename_duplicate": (("ValueError",), ("rename",)),
+    "rename_two_onto_one": (("ValueError",), ("rename",)),
     "join_suffix_collision": (("ValueError",), ("join",)),
     "select_duplicate": (("ValueError",), ("select",)),
     # table-level rules
@@ -242,7 +243,7 @@ class RejectsMixin:
             return "not grouped"
         if rule == "summarize_empty" and m.grouping:
             return "grouped"
-        if rule == "rename_duplicate" and len(m.visible) < 2:
+        if rule in ("rename_duplicate", "rename_two_onto_one") and len(m.visible) < 2:
             return "too few columns"
         if rule in ("join_grouped", "union_grouped"):
             if not (m.grouping or (other is not None and other.m.grouping)):
@@ -425,6 +426,12 @@ class RejectsMixin:
             b = next(n for n in names if n != a)
             key = self.col(step, t, a, rep) if step["via"] != "own" else a
             return t >> pdt.rename({key: b})
+        if rule == "rename_two_onto_one":
+            names = t >> pdt.columns()
+            a = step["any"]
+            b = next(n for n in names if n != a)
+            ka = self.col(step, t, a, rep) if step["via"] != "own" else a
+            return t >> pdt.rename({ka: new, b: new})
         if rule == "select_duplicate":
             return t >> pdt.select(c_any, t[step["any"]])
         if rule == "join_suffix_collision":
